@@ -13,6 +13,11 @@ Read from the CURRENT tree (runtime reflection of data_types first, AST of the w
   use / len(..)+1 / field copy / positive constant / None / parameter resolved through the callers) or the
   dataclass default when the keyword is absent; for each size-reporting image class whether `size_bytes` is
   `len(v)` of the very `v` stored as payload;
+* for every constructor call site of an image class: where the payload object comes from (`io.BytesIO(..)` written at
+  the site = a new object per image | immutable bytes | nothing | anything else = may be one object in several images);
+  for every image class the form of its `get_bytes()` (wrap the bytes in a new stream | rewind and return the stored one);
+* every read of an attribute `.text` in the package, classified by how the value is protected against `None`
+  (ElementTree gives `None` for an element that is present but empty) and whether the receiver is an XML element;
 * RTF stripper constants that end up in text (SPECIAL_CHARS values as code points; the \\uN mask);
 * the per-format map `metadata field <- XML tag` of the document-property readers (AST), for the pass-through theorems.
 """
@@ -658,6 +663,192 @@ def _state_sites(notes):
     return rows
 
 
+
+# ----------------------------------------------------------------------------- stream identity / get_bytes forms
+def _is_bytesio_call(e):
+    return (isinstance(e, ast.Call) and ((isinstance(e.func, ast.Attribute) and e.func.attr == "BytesIO")
+                                         or (isinstance(e.func, ast.Name) and e.func.id == "BytesIO")))
+
+
+def _stream_origin(pk, pv):
+    """origin of the payload object a constructor site stores (pk = payload kind of the class, pv = the expression or None)"""
+    if pv is None or (isinstance(pv, ast.Constant) and pv.value is None):
+        return "noPayload"
+    if pk == "bytes":
+        return "immutable"
+    if _is_bytesio_call(pv):
+        return "freshObject"
+    if isinstance(pv, ast.IfExp):      # `io.BytesIO(x) if … else None`
+        a, b = _stream_origin(pk, pv.body), _stream_origin(pk, pv.orelse)
+        if {a, b} <= {"freshObject", "noPayload"}:
+            return "freshObject" if "freshObject" in (a, b) else "noPayload"
+    return "other:" + type(pv).__name__ + ":" + ast.unparse(pv)[:40]
+
+
+def _get_bytes_form(cd, pf):
+    fn = _method(cd, "get_bytes")
+    if fn is None:
+        return "other:no-get_bytes"
+    rets = [n for n in ast.walk(fn) if isinstance(n, ast.Return)]
+    if not rets:
+        return "other:no-return"
+    local_fresh = set()     # locals bound (once) to io.BytesIO(..)
+    for n in ast.walk(fn):
+        if isinstance(n, ast.Assign) and len(n.targets) == 1 and isinstance(n.targets[0], ast.Name):
+            if _is_bytesio_call(n.value):
+                local_fresh.add(n.targets[0].id)
+            elif n.targets[0].id in local_fresh:
+                return "other:local-rebound"
+        if isinstance(n, (ast.Attribute, ast.Subscript)) and isinstance(n.ctx, ast.Store):
+            return "other:get_bytes-stores-state"      # e.g. a stream remembered on self / in a module table
+    kinds = set()
+    for r in rets:
+        v = r.value
+        if _is_bytesio_call(v) or (isinstance(v, ast.Name) and v.id in local_fresh):
+            kinds.add("fresh")
+        elif _self_attr(v) == pf:
+            kinds.add("stored")
+        else:
+            kinds.add("other")
+    if kinds == {"fresh"}:
+        return "wrapBytes"
+    if kinds == {"fresh", "stored"} or kinds == {"stored"}:
+        seeks = [n for n in ast.walk(fn) if isinstance(n, ast.Call) and isinstance(n.func, ast.Attribute) and n.func.attr == "seek"
+                 and _self_attr(n.func.value) == pf and len(n.args) == 1 and isinstance(n.args[0], ast.Constant) and n.args[0].value == 0]
+        return "rewindStored" if seeks else "other:stored-stream-not-rewound"
+    return "other:returns-" + "+".join(sorted(kinds))
+
+
+# ----------------------------------------------------------------------------- `.text` reads
+_ELEMENT_SOURCES = {"find", "iter", "findall", "iterfind", "getroot", "fromstring", "getchildren", "getparent"}
+
+
+def _conjuncts(test):
+    if isinstance(test, ast.BoolOp) and isinstance(test.op, ast.And):
+        out = []
+        for v in test.values:
+            out += _conjuncts(v)
+        return out
+    return [ast.dump(test)]
+
+
+def _is_element_name(mod, fn, name, depth=0):
+    """is the local `name` bound to an ElementTree element (or element | None) in `fn`?"""
+    if fn is None or depth > 2:
+        return False
+    a = fn.args
+    for p in a.posonlyargs + a.args + a.kwonlyargs:
+        if p.arg == name and p.annotation is not None and "Element" in ast.unparse(p.annotation):
+            return True
+
+    def from_source(v):
+        if isinstance(v, ast.NamedExpr):
+            v = v.value
+        if isinstance(v, ast.Call) and isinstance(v.func, ast.Attribute) and v.func.attr in _ELEMENT_SOURCES:
+            return True
+        if isinstance(v, ast.Subscript):       # children[0], root[1]
+            return isinstance(v.value, ast.Name) and _is_element_name(mod, fn, v.value.id, depth + 1)
+        return False
+
+    for n in ast.walk(fn):
+        if isinstance(n, ast.Assign) and any(isinstance(t, ast.Name) and t.id == name for t in n.targets) and from_source(n.value):
+            return True
+        if isinstance(n, ast.NamedExpr) and isinstance(n.target, ast.Name) and n.target.id == name and from_source(n.value):
+            return True
+        if isinstance(n, (ast.For, ast.comprehension)) and isinstance(n.target, ast.Name) and n.target.id == name:
+            it = n.iter
+            if from_source(it):
+                return True
+            if isinstance(it, ast.Name) and _is_element_name(mod, fn, it.id, depth + 1):
+                return True          # `for child in para:` iterates the children of an element
+    return False
+
+
+def _in_test_position(mod, node):
+    """only the truth value of `node` is used"""
+    cur = node
+    while cur in mod.parent:
+        p = mod.parent[cur]
+        if isinstance(p, ast.BoolOp) or (isinstance(p, ast.UnaryOp) and isinstance(p.op, ast.Not)):
+            # `X.text and Y` as a VALUE still hands X.text on when it is falsy — only accept when the BoolOp itself is a test
+            cur = p
+            continue
+        if isinstance(p, (ast.If, ast.IfExp, ast.While, ast.Assert)) and p.test is cur:
+            return True
+        if isinstance(p, ast.comprehension) and cur in p.ifs:
+            return True
+        return False
+    return False
+
+
+def _guarded_by(mod, node, dump):
+    """an enclosing `if` / conditional expression / comprehension filter tested `dump` truthy for the branch `node` is in"""
+    cur = node
+    while cur in mod.parent:
+        p = mod.parent[cur]
+        if isinstance(p, ast.IfExp) and cur is p.body and dump in _conjuncts(p.test):
+            return True
+        if isinstance(p, ast.If) and cur in p.body and dump in _conjuncts(p.test):
+            return True
+        if isinstance(p, (ast.ListComp, ast.GeneratorExp, ast.SetComp)) and cur is p.elt:
+            if any(dump in _conjuncts(c) for g in p.generators for c in g.ifs):
+                return True
+        if isinstance(p, ast.BoolOp) and isinstance(p.op, ast.And) and cur in p.values:
+            i = p.values.index(cur)
+            if any(dump in _conjuncts(v) for v in p.values[:i]):
+                return True
+        if isinstance(p, (ast.FunctionDef, ast.AsyncFunctionDef)):
+            return False
+        cur = p
+    return False
+
+
+def _read_kind(mod, node):
+    fn = mod.enclosing_fn(node)
+    recv = node.value
+    if not (isinstance(recv, ast.Name) and _is_element_name(mod, fn, recv.id)):
+        return "notElement"
+    d = ast.dump(node)
+    p = mod.parent.get(node)
+    if isinstance(p, ast.BoolOp) and isinstance(p.op, ast.Or) and node in p.values[:-1]:
+        return "orDefault"
+    if _in_test_position(mod, node):
+        return "testOnly"
+    if _guarded_by(mod, node, d):
+        return "guarded"
+    if isinstance(p, ast.Assign) and p.value is node and len(p.targets) == 1 and isinstance(p.targets[0], ast.Name) and fn is not None:
+        nm = p.targets[0].id
+        nd = ast.dump(ast.Name(id=nm, ctx=ast.Load()))
+        uses = [x for x in ast.walk(fn) if isinstance(x, ast.Name) and x.id == nm and isinstance(x.ctx, ast.Load)]
+        ok = True
+        for u in uses:
+            up = mod.parent.get(u)
+            if isinstance(up, ast.BoolOp) and isinstance(up.op, ast.Or) and u in up.values[:-1]:
+                continue
+            if _in_test_position(mod, u) or _guarded_by(mod, u, nd):
+                continue
+            ok = False
+        return "nameGuarded" if ok and uses else "unguarded"
+    return "unguarded"
+
+
+def _text_reads(notes):
+    rows = []
+    for rel in _py_files():
+        try:
+            mod = _Module(rel)
+        except SyntaxError as e:
+            notes.append(f"{rel}: {e}")
+            continue
+        for n in ast.walk(mod.tree):
+            if isinstance(n, ast.Attribute) and n.attr == "text" and isinstance(n.ctx, ast.Load):
+                fn = mod.enclosing_fn(n)
+                recv = n.value.id if isinstance(n.value, ast.Name) else ast.unparse(n.value)[:30]
+                rows.append((os.path.basename(rel), fn.name if fn is not None else "<module>", recv, n.lineno, _read_kind(mod, n)))
+    rows.sort(key=lambda r: (r[0], r[3], r[2]))
+    return rows
+
+
 # ----------------------------------------------------------------------------- the generator
 @generator("Iface")
 def gen_iface() -> str:
@@ -729,6 +920,8 @@ def gen_iface() -> str:
     num_sites = []   # (file, line, class, field, role, kind)
     size_sites = []  # (file, line, class, kind)
     size_classes = {r[0]: (r[4], r[5]) for r in image_rows if r[3]}
+    payload_of = {r[0]: (r[4], r[5]) for r in image_rows}
+    stream_sites = []  # (file, line, class, origin)
     for rel in _py_files():
         try:
             mod = _Module(rel)
@@ -745,6 +938,17 @@ def gen_iface() -> str:
                 # dataclasses.replace(obj, field=...) : only the given fields are (re)set
                 for c_name, nf in number_fields.items():
                     pass
+                # a copy of an image object: classes that have all the given fields; if one of them stores a stream
+                # and the copy is not given a payload of its own, copy and original hold the SAME stream object
+                cands = [r for r in image_rows if kws and all(k in {f.name for f in dataclasses.fields(getattr(dt, r[0]))} for k in kws)]
+                for r in cands:
+                    pf0, pk0 = r[4], r[5]
+                    if pk0 == "bytes":
+                        continue
+                    if pf0 in kws:
+                        stream_sites.append((rel, n.lineno, r[0], _stream_origin(pk0, kws[pf0])))
+                    else:
+                        stream_sites.append((rel, n.lineno, r[0], "other:replace-copy-shares-the-stored-stream"))
                 for fld, val in kws.items():
                     roles = {nf[fld] for nf in number_fields.values() if fld in nf}
                     if roles:
@@ -754,6 +958,8 @@ def gen_iface() -> str:
                 continue
             if any(k.arg is None for k in n.keywords):
                 num_sites.append((rel, n.lineno, target, "**", "unit", "other:star-kwargs"))
+                if target in {r[0] for r in image_rows}:
+                    stream_sites.append((rel, n.lineno, target, "other:star-kwargs"))
                 continue
             c = getattr(dt, target)
             order = [f.name for f in dataclasses.fields(c)]
@@ -768,6 +974,9 @@ def gen_iface() -> str:
                     f = next(f for f in dataclasses.fields(c) if f.name == fld)
                     kind = "default:" + (repr(f.default) if f.default is not dataclasses.MISSING else "MISSING")
                 num_sites.append((rel, n.lineno, target, fld, role, kind))
+            if target in payload_of:
+                pf0, pk0 = payload_of[target]
+                stream_sites.append((rel, n.lineno, target, _stream_origin(pk0, given.get(pf0))))
             if target in size_classes:
                 pf, pk = size_classes[target]
                 sz, pv = given.get("size_bytes"), given.get(pf)
@@ -796,7 +1005,7 @@ def gen_iface() -> str:
     md_rows = _metadata_maps(notes)
 
     L = [HEADER.format(src="sharepoint2text/parsing/extractors/data_types.py + every constructor call site of the package")]
-    L.append("import S2T.Model.Iface\nnamespace S2T.Gen.Iface\nopen S2T.Iface\n")
+    L.append("import S2T.Model.Iface\nimport S2T.Model.IfaceStreams\nimport S2T.Model.IfaceOptText\nnamespace S2T.Gen.Iface\nopen S2T.Iface\n")
     L.append("/-- (role, class, protocol accessors the class defines) -/")
     L.append("def accessors : List (Role × String × List String) := " + lean_list(
         f"(.{r}, {lean_str(c)}, [{', '.join(lean_str(a) for a in acc)}])" for r, c, acc in acc_rows) + "\n")
@@ -828,6 +1037,21 @@ def gen_iface() -> str:
             lean_str(os.path.basename(f)), ln, lean_str(c),
             ".absent" if k == "absent" else ".lenOfPayload" if k == "lenOfPayload" else ".copyOfImage" if k == "copy" else f".other {lean_str(k)}")
         for f, ln, c, k in size_sites) + "\n")
+    def origin(k):
+        return "." + k if k in ("noPayload", "freshObject", "immutable") else f".other {lean_str(k)}"
+    L.append("/-- every constructor call site of an image class: where the payload object it stores comes from -/")
+    L.append("def streamSites : List StreamSite := " + lean_list(
+        "{ file := %s, line := %d, cls := %s, origin := %s }" % (lean_str(os.path.basename(f)), ln, lean_str(c), origin(k))
+        for f, ln, c, k in stream_sites) + "\n")
+    L.append("/-- (image class, payload kind, form of its get_bytes()) -/")
+    L.append("def getBytesForms : List (String × PayloadKind × GetBytesForm) := " + lean_list(
+        "(%s, .%s, %s)" % (lean_str(n), pk if pk in ("stream", "bytes") else "otherKind",
+                           (lambda k: "." + k if k in ("wrapBytes", "rewindStored") else f".other {lean_str(k)}")(_get_bytes_form(cds[n], pf)))
+        for n, i, u, hs, pf, pk in image_rows) + "\n")
+    L.append("/-- every read of an attribute `.text` in the package (tests excluded) and how its value is protected against None -/")
+    L.append("def textReads : List TextRead := " + lean_list(
+        "{ file := %s, fn := %s, recv := %s, line := %d, kind := .%s }" % (lean_str(f), lean_str(fn), lean_str(rv), ln, k)
+        for f, fn, rv, ln, k in _text_reads(notes)) + "\n")
     L.append("/-- code points of the RTF SPECIAL_CHARS replacement strings -/")
     L.append("def rtfSpecialCodePoints : List Nat := [" + ", ".join(str(c) for c in special_cps) + "]\n")
     L.append("def rtfSpecial : List (String × List Nat) := " + lean_list(
